@@ -84,7 +84,10 @@ def run_case(rep: Report, cases, ctx, rng, img, disc, k, pos, val, base_files, b
             new_name = char_akai_to_ascii(raw)
         except Exception:
             pass
-        if pos < 12 and new_name is not None and new_name.strip() in [o for o in others]:
+        if bytes(dmg[tbl + k * ENTRY + 8: tbl + k * ENTRY + 10]) == b"\x47\xd7" and set(missing) == {n for i, n in enumerate(names) if i > k}:
+            # KF-C14-end-marker-alias: the table's end marker IS the 16-bit value 0xD747 at bytes 8..9 of an entry
+            rep.findings.append(Finding("akai-damaged-name-is-the-end-marker", dict(detail, missing=missing)))
+        elif pos < 12 and new_name is not None and new_name.strip() in [o for o in others]:
             rep.findings.append(Finding("akai-damaged-name-collides-with-sibling", dict(detail, new_name=new_name, missing=missing)))
         else:
             after = [n for i, n in enumerate(names) if i > k]
@@ -264,6 +267,12 @@ def run(ctx, rep: Report, deep: bool = False):
                     run_case(rep, cases, ctx, rng, bytes(dmg), disc, k, base_off + width - 1, raw[width - 1], base_files, base_names, v in (11386, 0xFFFF, 140),
                              force=bytes(dmg) != bytes(img))
                     rep.feat("field_boundary_values")
+            # the two name bytes that spell the table's end marker (round 22: the entries behind it are not read)
+            if k < nfiles - 1:
+                dmg = bytearray(img)
+                dmg[locate_table(img, disc) + k * ENTRY + 8] = 0x47
+                run_case(rep, cases, ctx, rng, bytes(dmg), disc, k, 9, 0xD7, base_files, base_names, False, force=True)
+                rep.feat("name_bytes_spelling_the_end_marker")
             # random multi-byte damage
             for _ in range(10 if not full else 60):
                 dmg = bytearray(img)
@@ -285,7 +294,7 @@ def run(ctx, rep: Report, deep: bool = False):
                 rep.disagreements.append({"family": "akai-damage", "op": c.op, "model": (model or "")[:600], "impl": c.impl[:600], "meta": None})
     rep.families["akai-damage"] = {"cases": len(cases), "disagreements": bad}
     rep.sample({"family": "akai-damage", "case": "entry k, byte position p set to v; ls A:/VOL + export compared with the undamaged run"})
-    rep.required_features = ["damaged_images", "field_name", "field_type", "field_size", "field_start", "multi_byte_damage", "field_boundary_values", "roland_damaged_images", "roland_field_dir", "roland_field_par", "roland_fat_entry_set_to_a_siblings_head"]
+    rep.required_features = ["name_bytes_spelling_the_end_marker", "damaged_images", "field_name", "field_type", "field_size", "field_start", "multi_byte_damage", "field_boundary_values", "roland_damaged_images", "roland_field_dir", "roland_field_par", "roland_fat_entry_set_to_a_siblings_head"]
 
 
 def search(ctx, rep: Report):
